@@ -12,6 +12,7 @@ import (
 	"sort"
 	"strings"
 	"sync/atomic"
+	"syscall"
 	"time"
 )
 
@@ -366,17 +367,22 @@ func (c *Ctx) StartWatchdog(stall time.Duration, heapLimit uint64) {
 	go func() {
 		last := c.progress.Load()
 		lastChange := time.Now()
+		cpuAtChange := processCPU()
 		var ms runtime.MemStats
-		tick := 0
 		for {
 			time.Sleep(100 * time.Millisecond)
-			tick++
 			p := c.progress.Load()
 			if p != last {
 				last = p
 				lastChange = time.Now()
-			} else if time.Since(lastChange) > stall {
-				c.die("hang", ExitHang)
+				cpuAtChange = processCPU()
+			} else if w := time.Since(lastChange); w > stall {
+				// a real hang burns CPU; a worker that is merely starved on a loaded machine does not. Kill when the
+				// case has consumed half the stall limit in CPU time without progress, or when nothing at all
+				// happened for fifteen times the limit (blocked forever).
+				if processCPU()-cpuAtChange > stall/2 || w > 15*stall {
+					c.die("hang", ExitHang)
+				}
 			}
 			runtime.ReadMemStats(&ms)
 			if ms.HeapAlloc > heapLimit {
@@ -384,6 +390,14 @@ func (c *Ctx) StartWatchdog(stall time.Duration, heapLimit uint64) {
 			}
 		}
 	}()
+}
+
+func processCPU() time.Duration {
+	var ru syscall.Rusage
+	if syscall.Getrusage(syscall.RUSAGE_SELF, &ru) != nil {
+		return 0
+	}
+	return time.Duration(ru.Utime.Nano() + ru.Stime.Nano())
 }
 
 func (c *Ctx) die(why string, code int) {
